@@ -12,6 +12,7 @@ import (
 	"github.com/veraison/eat"
 	"github.com/veraison/psatoken"
 
+	"verif/harness/extprof"
 	"verif/harness/model"
 	"verif/harness/refcbor"
 )
@@ -177,6 +178,9 @@ func Build(a *model.Claims) (psatoken.IClaims, error) {
 			v := append([]byte{}, a.Nonces[0]...)
 			c.Nonce = &v
 		}
+		if a.Canon == extprof.ExtP1Name {
+			return &extprof.ExtP1Claims{P1Claims: *c}, nil
+		}
 		return c, nil
 	}
 	c := &psatoken.P2Claims{
@@ -217,6 +221,9 @@ func Build(a *model.Claims) (psatoken.IClaims, error) {
 		}
 		c.Nonce = &n
 	}
+	if a.Canon == extprof.ExtP2Name {
+		return &extprof.ExtP2Claims{P2Claims: *c}, nil
+	}
 	return c, nil
 }
 
@@ -230,7 +237,12 @@ func SetterBuild(a *model.Claims) (psatoken.IClaims, error) {
 		return nil, err
 	}
 	if a.P == 1 && a.Profile == nil {
-		c.(*psatoken.P1Claims).Profile = nil
+		switch t := c.(type) {
+		case *psatoken.P1Claims:
+			t.Profile = nil
+		case *extprof.ExtP1Claims:
+			t.Profile = nil
+		}
 	}
 	if a.ClientID != nil {
 		if err := c.SetClientID(*a.ClientID); err != nil {
@@ -291,6 +303,16 @@ func SetterBuild(a *model.Claims) (psatoken.IClaims, error) {
 // Fresh returns an empty claims object of the implementation that the abstract
 // set belongs to (no profile claim preset), ready to be decoded into.
 func Fresh(a *model.Claims) psatoken.IClaims {
+	switch a.Canon {
+	case extprof.ExtP2Name:
+		c := extprof.NewExtP2Claims().(*extprof.ExtP2Claims)
+		c.Profile = nil
+		return c
+	case extprof.ExtP1Name:
+		c := extprof.NewExtP1Claims().(*extprof.ExtP1Claims)
+		c.Profile = nil
+		return c
+	}
 	if a.P == 1 {
 		return &psatoken.P1Claims{SwComponents: &psatoken.SwComponents[*psatoken.SwComponent]{}, CanonicalProfile: a.Canon}
 	}
